@@ -230,7 +230,9 @@ class TealBlock(ABC):
                             outgoingBlock.incoming.append(prev)
 
                     if block is start:
-                        start = block
+                        # the (empty) start block has been bypassed: the graph now starts at
+                        # its only successor
+                        start = outgoingBlock
 
         return start
 
